@@ -27,6 +27,7 @@ fn main() {
         Some("cping") => m_cping::run(),
         Some("async") => m_async::run(),
         Some("asyncw") => m_asyncw::run(),
+        Some("asyncdup") => m_async::run_dup(),
         Some("genlife") => m_genlife::run(),
         Some("cexec") => m_cexec::run(),
         Some("cexec13") => m_cexec::run13(),
